@@ -85,13 +85,38 @@ def _wq(xs, cdf, q):
 
 
 def wquantile_interval(x, w, q, delta=1e-12):
+    """As _wquantile_interval_sorted, hulled over every order in which samples of exactly equal value can be
+    sorted (which of two equal values comes first is not defined by "the weighted quantile of the trace", and the
+    interpolated value just below a group of equal values depends on it)."""
+    import itertools
+    x = np.asarray(x, dtype=float)
+    idx = sorted(range(len(x)), key=lambda i: x[i])
+    groups = []
+    for i in idx:
+        if groups and x[groups[-1][0]] == x[i]:
+            groups[-1].append(i)
+        else:
+            groups.append([i])
+    nord = 1
+    for g in groups:
+        nord *= math.factorial(len(g))
+    if nord == 1 or nord > 5040:
+        return _wquantile_interval_sorted(x, w, q, idx, delta)
+    lo, hi = math.inf, -math.inf
+    for combo in itertools.product(*[list(itertools.permutations(g)) for g in groups]):
+        order = [i for g in combo for i in g]
+        a, b = _wquantile_interval_sorted(x, w, q, order, delta)
+        lo, hi = min(lo, a), max(hi, b)
+    return lo, hi
+
+
+def _wquantile_interval_sorted(x, w, q, order, delta=1e-12):
     """Weighted quantile of x at q (sorted cumulative weights, linearly interpolated).  Returns
     (lo, hi): the quantile function evaluated at q-delta and q+delta, hulled with every sample
     whose cumulative weight equals q within delta - all of them are 'the q-quantile' of the
     stored samples when the cumulative weight is flat at q (zero-weight neighbours)."""
     x = np.asarray(x, dtype=float)
     w = np.asarray(w, dtype=float)
-    order = sorted(range(len(x)), key=lambda i: x[i])
     xs = [float(x[i]) for i in order]
     tot = math.fsum(float(v) for v in w)
     cdf = []
